@@ -415,6 +415,20 @@ impl Run {
         res: CaseResult,
         counting: bool,
     ) -> Result<(), Failure> {
+        // a failure of the infrastructure (signature `infra/...`: the machine's resource limits, not the code
+        // under test) makes the run inconclusive (exit 2), never a violation; the search goes on
+        let res = match res {
+            Err(f) if f.signature.starts_with("infra/") => {
+                let mut st = self.state.lock().unwrap();
+                let note = format!("{sub}: {}: {}", f.signature, f.what);
+                if !st.inconclusive.iter().any(|i| i.starts_with(&format!("{sub}: {}", f.signature))) {
+                    st.inconclusive.push(note);
+                }
+                drop(st);
+                Ok(CaseOk { nontrivial: false, class: format!("inconclusive:{}", f.signature), key: 0, known: Vec::new() })
+            }
+            other => other,
+        };
         // known-finding observations inside a passing case: all must be listed, else the case fails
         let res = match res {
             Ok(okc) if !okc.known.is_empty() => {
